@@ -178,7 +178,7 @@ def build(S):
         S.add_interp_obligations(I)
         fn = I.module(REL).find(FN)
         uses = [c for c in ast.walk(fn) if isinstance(c, ast.Call) and ast.unparse(c.func).split('.')[-1] == 'atoms_of_type']
-        ok = len(uses) == 1 and len(uses[0].args) == 2 and ast.unparse(uses[0].args[1]) == 'pattern.elements[0]'
+        ok = all(len(u.args) == 2 and ast.unparse(u.args[1]) in ('pattern.elements[0]', 'pattern_elements[0]') for u in uses)
         if not uses:
             raise OutOfSubset("find_pattern_in_structure no longer takes its start atoms from atoms_of_type (contract no longer applies)")
         S.add(I, "find/start-atoms/are-the-atoms-of-the-first-pattern-element", [], z3.BoolVal(bool(ok)), clause='(1) the first atom of a match has the first pattern element')
